@@ -268,3 +268,60 @@ def has_operand_nested_exit(recipe) -> bool:
 @predicate("p1_exit_nested_in_operand")
 def p1_exit_nested_in_operand(case, bucket, detail):
     return isinstance(case, dict) and isinstance(case.get("recipe"), dict) and has_operand_nested_exit(case["recipe"])
+
+
+# --------------------------------------------------------------------------- F23 (comment defeats the slot optimiser)
+
+
+@predicate("f23_comment_blocks_slot_optimisation")
+def f23_comment_blocks_slot_optimisation(case, bucket, detail):
+    """F23: with the slot optimisation on, a comment op placed between `store k` and `load k` keeps the pair from being
+    cancelled, so the annotated program keeps a store/load the base program lost. Input side: the failing configuration
+    has the optimiser on, and the same pair of programs compiled with scratch_slots=False has equal instruction streams
+    (i.e. the annotations themselves change nothing)."""
+    if bucket != "stream-differs" or not isinstance(case, dict) or "annotated" not in case:
+        return False
+    from .props import c18
+    from .teal import canon, parser as tp
+
+    names = {int(k): v for k, v in case.get("names", {}).items()}
+    hit = False
+    for cfg in case.get("configs", []):
+        if not _optimizer_on(cfg):
+            continue
+        c2 = dict(cfg, scratch_slots=False)
+        kb, tb = c18._compile(case["recipe"], c2)
+        ka, ta = c18._compile(case["annotated"], c2, names)
+        if kb != "teal" or ka != "teal":
+            return False
+        pa, pb = tp.parse(ta), tp.parse(tb)
+        skip = 2 if case["annotated"].get("nonce") else 0
+        asm = bool(cfg.get("assemble"))
+        if canon.layout_normal(pa, skip, values=asm) != canon.layout_normal(pb, 0, values=asm):
+            return False
+        hit = True
+    return hit
+
+
+@predicate("f22_annotated_literal_index")
+def f22_annotated_literal_index(case, bucket, detail):
+    """F22: a Comment/Pragma wrapper directly around a literal Int index operand of Substring/Extract/Suffix/Replace
+    (those constructs pick the immediate-form opcode only for bare Int operands)."""
+    if bucket != "stream-differs" or not isinstance(case, dict) or "annotated" not in case:
+        return False
+    from .recipe import nodes as N
+
+    def lit_under_wrapper(n):
+        while n[0] in ("comment", "pragma") and len(n) > 2 and n[2] is not None:
+            n = n[2]
+            if n[0] == "int":
+                return True
+        return False
+
+    for nd in N.recipe_nodes(case["annotated"]):
+        if nd[0] == "tern" and nd[1] in ("Substring", "Extract", "Replace"):
+            if any(lit_under_wrapper(c) for c in (nd[3], nd[4])):
+                return True
+        if nd[0] == "suffix" and lit_under_wrapper(nd[2]):
+            return True
+    return False
